@@ -67,11 +67,13 @@ pub fn is_alnum(c: char) -> bool {
 pub struct Lexer {
     cs: Vec<char>,
     pub pos: usize,
+    /// start (char index) of the token returned last
+    pub last_start: usize,
 }
 
 impl Lexer {
     pub fn new(text: &str) -> Lexer {
-        Lexer { cs: text.chars().collect(), pos: 0 }
+        Lexer { cs: text.chars().collect(), pos: 0, last_start: 0 }
     }
     fn peek(&self) -> Option<char> {
         self.cs.get(self.pos).copied()
@@ -300,6 +302,7 @@ impl Lexer {
     pub fn next(&mut self) -> Result<Token, LexError> {
         let at_start = self.pos == 0;
         let lay = self.skip_layout()? || at_start;
+        self.last_start = self.pos;
         let c = self.peek().ok_or(LexError::Eof)?;
         let tok = if c == '_' || is_capital(c) {
             let mut s = String::new();
@@ -735,4 +738,62 @@ pub fn read_with_ops(text: &str, ops: &[(String, u32, String)]) -> Result<T, Par
         return Err(ParseError::Unexpected(format!("trailing tokens from {} of {}", p.i, p.toks.len())));
     }
     Ok(t)
+}
+
+/// Value of a text as a Prolog number, judged by this tokenizer.
+#[derive(Clone, Debug, PartialEq)]
+pub enum NumEval {
+    /// exactly one numeric token (optionally preceded directly by `-`), nothing else
+    Value(T),
+    /// a number, but with layout text / comments before, after, or between `-` and the digits,
+    /// or inside a digit group (`1_ 000`)
+    ValueWithLayout(T),
+    NotNumber,
+}
+
+pub fn eval_number_text(text: &str) -> NumEval {
+    let n = text.chars().count();
+    let mut lx = Lexer::new(text);
+    let mut toks: Vec<(Tok, usize, usize)> = vec![];
+    loop {
+        match lx.next() {
+            Ok(t) => toks.push((t.tok, lx.last_start, lx.pos)),
+            Err(LexError::Eof) => break,
+            Err(_) => return NumEval::NotNumber,
+        }
+        if toks.len() > 2 {
+            return NumEval::NotNumber;
+        }
+    }
+    // trailing layout: the lexer stops at Eof after skipping it
+    let num = |t: &Tok, neg: bool| -> Option<T> {
+        match t {
+            Tok::Int(i) => Some(T::Int(if neg { -i.clone() } else { i.clone() })),
+            Tok::Float(f) if f.is_finite() => Some(T::Float(if neg { -*f } else { *f })),
+            _ => None,
+        }
+    };
+    let (val, first, last_end, gap) = match toks.as_slice() {
+        [(t, s, e)] => (num(t, false), *s, *e, false),
+        [(Tok::Name { text: m, quoted: false }, s, e1), (t, s2, e)] if m == "-" => (num(t, true), *s, *e, e1 != s2),
+        _ => (None, 0, 0, false),
+    };
+    let Some(v) = val else { return NumEval::NotNumber };
+    // layout inside the numeric token itself (digit groups) = the token is longer than its non-layout characters
+    let inner_layout = {
+        let cs: Vec<char> = text.chars().collect();
+        let (s, e) = match toks.as_slice() {
+            [(_, s, e)] => (*s, *e),
+            [_, (_, s, e)] => (*s, *e),
+            _ => (0, 0),
+        };
+        let tokc = &cs[s..e];
+        // a character code constant may contain a space or a quoted layout char legitimately
+        !(tokc.len() >= 2 && tokc[0] == '0' && tokc[1] == '\'') && tokc.iter().any(|c| is_layout(*c) || *c == '%' || *c == '*')
+    };
+    if first != 0 || last_end != n || gap || inner_layout {
+        NumEval::ValueWithLayout(v)
+    } else {
+        NumEval::Value(v)
+    }
 }
